@@ -119,6 +119,18 @@ func (s *Staking) processDoubleSignV5(config *params.YouParams, currentDB *state
 	if len(doubleSign.Signs) < 2 {
 		return
 	}
+	// Signatures only prove a double sign when they are for different hashes:
+	// one vote listed twice is not an offence.
+	differ := false
+	for _, info := range doubleSign.Signs[1:] {
+		if info.Hash != doubleSign.Signs[0].Hash {
+			differ = true
+			break
+		}
+	}
+	if !differ {
+		return
+	}
 
 	log.Info("slashing", "type", EvidenceTypeDoubleSignV5, "parent", parentHeight, "eRound", doubleSign.Round, "eRoundIndex", doubleSign.RoundIndex, "sinerIdx", doubleSign.SignerIdx, "signs", len(doubleSign.Signs))
 	switch {
